@@ -365,7 +365,9 @@ impl Ord for Uri {
 
 impl Hash for Uri {
 	fn hash<H: hash::Hasher>(&self, state: &mut H) {
-		self.parts().hash(state)
+		// Hash as a reference (optional scheme) so that the `Borrow`
+		// implementations to the reference types keep `Hash` consistent.
+		self.as_uri_ref().hash(state)
 	}
 }
 
